@@ -500,6 +500,45 @@ def run_long_history(case):
     S.outcome(("long_history", case, work))
 
 
+KW_CANDIDATES = ["C", "Gb", "Cb", "a#", "ab", "f#", "H", "", "cb", "C#b", "G#", "zz"]
+
+
+def run_keyword_forms(case):
+    """case = [first, second]: the keys functions asked with the key passed by keyword (and, for the first one, also with no
+    argument at all: the default key), one candidate after the other; every answer equals the positional answer."""
+    S = engine.S
+
+    def ask(fn, **kw):
+        try:
+            return ["ok", fn(**kw)]
+        except Exception as e:                          # noqa
+            return ["raised", type(e).__name__]
+
+    def ask_pos(fn, *a):
+        try:
+            return ["ok", fn(*a)]
+        except Exception as e:                          # noqa
+            return ["raised", type(e).__name__]
+
+    for cand in case:
+        for name in ("is_valid_key", "get_key_signature", "get_key_signature_accidentals", "get_notes", "relative_major", "relative_minor"):
+            fn = getattr(K, name)
+            want = ask_pos(fn, cand)
+            got = ask(fn, key=cand)
+            S.trans(2)
+            if got != want:
+                S.problem("keys.%s(key=%r) [by keyword, asked after %r]" % (name, cand, case[:case.index(cand)]), want, got)
+                return
+    for name in ("get_key_signature", "get_key_signature_accidentals", "get_notes"):
+        fn = getattr(K, name)
+        want, got = ask_pos(fn, "C"), ask(fn)
+        if got != want:
+            S.problem("keys.%s() [the default key]" % name, want, got)
+            return
+    S.count("keyword_form_pairs")
+    S.outcome(tuple(case))
+
+
 CLAUSES = {
     "key_notes": run_key_notes,
     "lookup": run_lookup,
@@ -510,6 +549,7 @@ CLAUSES = {
     "circle": run_circle,
     "memo": run_memo,
     "long_history": run_long_history,
+    "keyword_forms": run_keyword_forms,
 }
 
 
@@ -525,6 +565,9 @@ def explore(ctx):
         sigs = sorted(set(sigs))
         ctx.bound("signature_numbers", "-1100..1100, 65516..65556 and +-10**6, +-2**31, 2**32-+7")
         ctx.serial("lookup", sigs)
+    if ctx.want("keyword_forms"):
+        ctx.bound("keyword_forms", {"candidates": KW_CANDIDATES, "ordered pairs": len(KW_CANDIDATES) ** 2})
+        ctx.serial("keyword_forms", [[a, b] for a in KW_CANDIDATES for b in KW_CANDIDATES])
     if ctx.want("long_history"):
         ctx.product("long_history", ["forward", "reversed"], lambda o: [o])
     if ctx.want("relative"):
